@@ -25,7 +25,7 @@ def install(eng):
         cnt = itertools.count()
         outs = tree_to_py(eng, model_tree(eng, model, tsym, "outputs"), cnt, "o")
         ins = tree_to_py(eng, model_tree(eng, model, tsym, "inputs"), cnt, "i")
-        changed = bool(model.eval(eng.vc.f_changed(eng.entry_state.env["spec_hashes"].z, tsym), model_completion=True))
+        changed = bool(model.eval(eng.vc.changed(eng.entry_state, eng.entry_state.env["spec_hashes"].z, tsym), model_completion=True))
         tgt = Target(name="T", inputs=ins, outputs=outs, options={}, working_dir="/w")
         O, I = sorted(set(tgt.flattened_outputs())), sorted(set(tgt.flattened_inputs()))
         tried = 0
@@ -67,3 +67,113 @@ def install(eng):
                 "note": "no candidate from the model's tree shapes failed on the real function"}
 
     eng.replayers["gwf.scheduling:should_run"] = replay_should_run
+
+    # ================================================================== schedule (C02, C05, C09)
+    FnRef = vc.FnRef
+    LT = T.ListV(vc.Target)
+    CacheT = T.DictT(vc.Target, vc.Status)
+    GHOSTS = ["ghost:log_pos", "ghost:log_deps", "ghost:log_n", "ghost:bnow", "SpecHashes.chg"]
+
+    eng.contract("iface:status_func", params={"target": vc.Target}, returns=vc.BStatus,
+                 returns_expr="bnow[target]", trusted=True, pure=True,
+                 note="the backend's current answer for the target (ghost map bnow)")
+    eng.contract(
+        "iface:submit_func", params={"target": vc.Target, "dependencies": LT}, trusted=True,
+        requires=["target not in log_pos"],   # C02: at most one submission per target per run
+        modifies=GHOSTS,
+        ensures=["forall(lambda u: (u in log_pos) == (u in old(log_pos) or u == target), Target)",
+                 "log_pos[target] == old(log_n)", "log_n == old(log_n) + 1",
+                 "all(log_pos[u] == old(log_pos)[u] for u in old(dom(log_pos)))",
+                 "log_deps[target] == elems(dependencies)",
+                 "forall(lambda u: implies(u != target, log_deps[u] == old(log_deps)[u]), Target)",
+                 "forall(lambda u: implies(u != target, bnow[u] == old(bnow)[u]), Target)",
+                 "forall(lambda u, h: implies(u != target, Changed(h, u) == old(Changed(h, u))), Target, Hashes)"],
+        raises={"Exception": {"cond": "True", "modifies": []}},   # a rejected submission changes nothing
+        note="interface of the submit callback; the three real callbacks are checked against it")
+
+    # invariant shared by schedule / _schedule / _cached_schedule (all names are the closure's own)
+    STATIC = [
+        "forall(lambda u: DepsOf(graph, u) == deps0(u), Target)",
+        # every input is an existing file or an output of a direct dependency (Graph invariant, C04)
+        "forall(lambda u, p: implies(p in Ins(u), fs_exists(fs, p) or any(p in Outs(a) for a in deps0(u))), Target, Path)",
+        "forall(lambda u, p: implies(not stale0(u) and p in Outs(u), fs_exists(fs, p)), Target, Path)",
+    ]
+    LOGINV = [
+        "log_n >= 0",
+        "all(Needs(SpecF(u)) and X(u) for u in log_pos)",
+        "all(0 <= log_pos[u] and log_pos[u] < log_n for u in log_pos)",
+        "all(log_deps[u] == setof(lambda d: d in deps0(u) and SpecF(d) != Status.COMPLETED, Target) for u in log_pos)",
+        "all(log_pos[d] < log_pos[u] for u in log_pos for d in log_deps[u] if d in log_pos)",
+        "all(log_pos[u] != log_pos[v] for u in log_pos for v in log_pos if u != v)",
+    ]
+    INV = STATIC + LOGINV + [
+        "all(cache[u] == SpecF(u) and X(u) for u in cache)",
+        "all(d in cache for u in cache for d in deps0(u))",
+        "all((u in log_pos) == Needs(SpecF(u)) for u in cache)",
+        "all(u in cache for u in log_pos)",
+        # targets not decided yet still look as they did when the run started
+        "forall(lambda u: implies(u not in cache, bnow[u] == bstat0(u) and Stale(u, fs, spec_hashes) == stale0(u)), Target)",
+    ]
+    MONO = ["subset(dom(old(cache)), dom(cache))",
+            "all(rank(u) <= rank(target) for u in cache if u not in old(cache))"]
+    CAPT = {"graph": vc.Graph, "fs": vc.Fs, "spec_hashes": vc.Hashes, "cache": CacheT,
+            "status_func": FnRef("iface:status_func"), "submit_func": FnRef("iface:submit_func"),
+            "_schedule": FnRef("gwf.scheduling:schedule._schedule"),
+            "_cached_schedule": FnRef("gwf.scheduling:schedule._cached_schedule")}
+    MODS = ["cache", "Graph.dependencies"] + GHOSTS
+    EXC = {"Exception": {"cond": "True", "ensures": STATIC + LOGINV}}
+    USES = ["spec", "rank", "cone", "tree", "fs"]
+    HINTS = ["forall(lambda u: deps0(u) == NoTargets and Ins(u) == NoPaths and Outs(u) == NoPaths, Target)",
+             "dom(log_pos) == NoTargets", "log_n == 0", "dom(graph.dependencies) == NoTargets"]
+    HINTS_C = HINTS + ["dom(cache) == NoTargets"]
+
+    eng.contract(
+        "gwf.scheduling:schedule._cached_schedule", params={"target": vc.Target}, returns=vc.Status,
+        captures=CAPT, requires=INV + ["X(target)"], modifies=MODS,
+        ensures=INV + MONO + ["target in cache", "result == cache[target]"],
+        raises=EXC, decreases="tup(rank(target), 1)", rec_group="schedule", uses=USES, cover_hints=HINTS_C, serves=["C02", "C05", "C09"])
+
+    eng.contract(
+        "gwf.scheduling:schedule._schedule", params={"target": vc.Target}, returns=vc.Status,
+        captures=CAPT, locals={"submitted_deps": LT},
+        requires=INV + ["X(target)", "target not in cache"], modifies=MODS,
+        ensures=STATIC + LOGINV + [
+            "all(cache[u] == SpecF(u) and X(u) for u in cache)",
+            "all(d in cache for u in cache for d in deps0(u))",
+            "all((u in log_pos) == Needs(SpecF(u)) for u in cache)",
+            "all(u in cache or u == target for u in log_pos)",
+            "forall(lambda u: implies(u not in cache and u != target, bnow[u] == bstat0(u) and "
+            "Stale(u, fs, spec_hashes) == stale0(u)), Target)",
+            "subset(dom(old(cache)), dom(cache))",
+            "all(rank(u) < rank(target) for u in cache if u not in old(cache))",
+            "target not in cache", "result == SpecF(target)", "all(d in cache for d in deps0(target))",
+            "(target in log_pos) == Needs(SpecF(target))"],
+        loops={1: Loop(seen="sd", inv=INV + [
+            "target not in cache", "X(target)", "all(d in cache for d in sd)",
+            "elems(submitted_deps) == setof(lambda d: d in sd and SpecF(d) != Status.COMPLETED, Target)",
+            "subset(dom(old(cache)), dom(cache))",
+            "all(rank(u) < rank(target) for u in cache if u not in old(cache))"])},
+        raises=EXC, decreases="tup(rank(target), 0)", rec_group="schedule", uses=USES, cover_hints=HINTS_C, serves=["C02", "C05", "C09"])
+
+    eng.contract(
+        "gwf.scheduling:schedule",
+        params={"endpoints": vc.TargetSet, "graph": vc.Graph, "fs": vc.Fs, "spec_hashes": vc.Hashes,
+                "status_func": FnRef("iface:status_func"), "submit_func": FnRef("iface:submit_func")},
+        returns=CacheT, locals={"cache": CacheT},
+        requires=STATIC + [
+            "dom(log_pos) == NoTargets", "log_n == 0",
+            "all(X(e) for e in endpoints)",
+            # the oracle's inputs are the state at the start of the run
+            "forall(lambda u: bnow[u] == bstat0(u) and Stale(u, fs, spec_hashes) == stale0(u), Target)"],
+        modifies=["Graph.dependencies"] + GHOSTS,
+        ensures=[
+            # C02 "iff it lies in the dependency cone": result keys are closed, contain the endpoints, and lie in
+            # EVERY closed superset X of the endpoints (X is an arbitrary uninterpreted predicate) = the least one
+            "all(e in result for e in endpoints)",
+            "all(d in result for u in result for d in deps0(u))",
+            "all(X(u) for u in result)",
+            "all(result[u] == SpecF(u) for u in result)",                       # C01/C02/C05: status table
+            "forall(lambda u: (u in log_pos) == (u in result and Needs(SpecF(u))), Target)",   # submitted iff
+        ] + LOGINV,                                                           # exact prerequisites, order, once
+        loops={1: Loop(seen="se", inv=INV + ["all(e in cache for e in se)"])},
+        raises=EXC, uses=USES, cover_hints=HINTS, serves=["C02", "C05", "C09"])
